@@ -393,7 +393,7 @@ pub fn gen(seed: u64, n: u64, out: &mut String) {
     }
     for i in 0..n {
         match r.below(10) {
-            0..=4 => {
+            0..=3 => {
                 let k = match r.below(4) {
                     0 => 1,
                     _ => r.range(1, 5),
@@ -458,9 +458,52 @@ pub fn gen(seed: u64, n: u64, out: &mut String) {
             _ => {
                 let k = r.below(4);
                 let msgs: Vec<Bytes> = (0..k).map(|_| Bytes::from(rand_payload(&mut r, false))).collect();
+                let lens: Vec<usize> = msgs.iter().map(|m| m.len()).collect();
                 let enc = encode_message_batch(msgs).to_vec();
                 let k = r.below(24) as usize;
-                let v = if r.chance(1, 5) { r.bytes(k) } else { mutate(&mut r, enc) };
+                let v = match r.below(5) {
+                    0 => r.bytes(k),
+                    1 | 2 => {
+                        // a well-formed batch in which ONE aligned field -- the count, or the length marker of
+                        // one entry -- is replaced by a boundary value (the top of the u64 range, around the
+                        // bytes that remain, around the frame limit), optionally truncated after it
+                        let mut v = enc.clone();
+                        let mut offsets = vec![0usize];
+                        let mut o = 8;
+                        for l in &lens {
+                            offsets.push(o);
+                            o += 8 + l;
+                        }
+                        if r.chance(1, 3) {
+                            // one more marker after the last entry
+                            offsets.push(v.len());
+                            v.extend_from_slice(&[0u8; 8]);
+                        }
+                        let at = *r.pick(&offsets);
+                        let rest = (v.len() - at - 8) as u64;
+                        let val: u64 = match r.below(12) {
+                            0 => u64::MAX,
+                            1 => u64::MAX - r.below(8),
+                            2 => u64::MAX - 8,
+                            3 => u64::MAX - 9,
+                            4 => 1 << 63,
+                            5 => (1 << 63) - 1,
+                            6 => rest + 1,
+                            7 => rest,
+                            8 => rest.saturating_sub(1),
+                            9 => MAX as u64 + r.below(3),
+                            10 => u32::MAX as u64 + r.below(3),
+                            _ => (usize::MAX as u64) - r.below(16),
+                        };
+                        v[at..at + 8].copy_from_slice(&val.to_be_bytes());
+                        if r.chance(1, 4) {
+                            let cut = at + 8 + r.below((v.len() - at - 8) as u64 + 1) as usize;
+                            v.truncate(cut);
+                        }
+                        v
+                    }
+                    _ => mutate(&mut r, enc),
+                };
                 batch_case(Err(v), out);
             }
         }
